@@ -387,7 +387,7 @@ def r07_4(ctx, run, rule='R07.4'):
     for w in ('build_values', 'build_scalar_array'):
         b = f.bodies.get("jsonpath::selector::Selector::<'a>::" + w)
         if b is None:
-            run.violation(rule, w, 'copy', 'writer not found (anchor lost)')
+            run.undecided(rule, w, 'copy', 'writer not found (anchor lost)')
             continue
         paths, loops = region_paths(b)
         okc = 0
